@@ -1,4 +1,4 @@
-\* MC_GoChannel_b_cl.cfg2
+\* buffered, only close() vs. late registration as written: must violate ReleasedOnClose
 SPECIFICATION Spec
 CONSTANTS
   Cap = 1
